@@ -43,7 +43,11 @@ pub fn benign_plan(rng: &mut Rng, len: usize) -> Vec<IoStep> {
         3 => {
             // one byte at a time, EINTR every other call
             for i in 0..(2 * len + 6).min(cap) {
-                plan.push(if i % 2 == 0 { IoStep::Eintr } else { IoStep::Chunk(1) });
+                plan.push(if i % 2 == 0 {
+                    IoStep::Eintr
+                } else {
+                    IoStep::Chunk(1)
+                });
             }
         }
         4 => {
@@ -95,7 +99,12 @@ pub struct Fired {
 }
 
 pub fn fired(io: &[IoEvent], tag: char) -> Fired {
-    let mut f = Fired { short: 0, eintr: 0, hard: 0, calls: 0 };
+    let mut f = Fired {
+        short: 0,
+        eintr: 0,
+        hard: 0,
+        calls: 0,
+    };
     for e in io.iter().filter(|e| e.tag == tag) {
         f.calls += 1;
         if e.ret < 0 {
@@ -112,7 +121,10 @@ pub fn fired(io: &[IoEvent], tag: char) -> Fired {
 }
 
 pub fn configured(plan: &[IoStep]) -> (u64, u64, u64) {
-    let c = plan.iter().filter(|s| matches!(s, IoStep::Chunk(_))).count() as u64;
+    let c = plan
+        .iter()
+        .filter(|s| matches!(s, IoStep::Chunk(_)))
+        .count() as u64;
     let e = plan.iter().filter(|s| matches!(s, IoStep::Eintr)).count() as u64;
     let h = plan.iter().filter(|s| s.is_hard()).count() as u64;
     (c, e, h)
@@ -133,7 +145,12 @@ pub fn shrink_plan(plan: &[IoStep]) -> Vec<Vec<IoStep>> {
         out.push(Vec::new());
     }
     if plan.iter().any(|s| matches!(s, IoStep::Eintr)) {
-        out.push(plan.iter().filter(|s| !matches!(s, IoStep::Eintr)).cloned().collect());
+        out.push(
+            plan.iter()
+                .filter(|s| !matches!(s, IoStep::Eintr))
+                .cloned()
+                .collect(),
+        );
     }
     if plan.len() > 1 {
         out.push(plan[..plan.len() / 2].to_vec());
